@@ -22,7 +22,7 @@ type vStr string
 type vS []string
 type vBool bool
 type vState struct {
-	Auto, Multi                      bool
+	Auto, Multi                       bool
 	Require, Add, Remove, After, Tags []string
 }
 type vSchema struct {
